@@ -779,7 +779,8 @@ def truncate_raggedarray(ra, index):
             vi = 0
         else:
             vi = int(ra._indices[-1][-1])
-        truncate_array(ra._values, index=vi)
+        if vi < len(ra._values):  # nothing to do if only empty subarrays go
+            truncate_array(ra._values, index=vi)
         ra._update_readmetxt()
         ra._update_arraydescr(len=len(ra._indices), size=ra._values.size)
     else:
